@@ -696,7 +696,7 @@ class GlobGlob(Contract):
 
 class GetStartingPaths(Contract):
     module, qual, props = 'glob', 'Glob._get_starting_paths', ('C12', 'C05')
-    pure = ('_is_parent', '_is_this', '_get_matcher')
+    pure = ('_is_parent', '_is_this', '_get_matcher', '_lexists')
 
     def inputs(self):
         self.dir_only = z3.Bool('dir_only')
@@ -735,12 +735,16 @@ class GetStartingPaths(Contract):
             if len(c.st.ghost['$iter_calls']) != 0:
                 return z3.BoolVal(True)
             r = c.ret
+            # ... provided they exist (fix: glob('./', root_dir='/nonexistent') returned ['./'])
+            lex = pyvc.truthy(U('method._lexists', c.p['self'], c.p['curdir']))
+            if r.kind == 'list':
+                return z3.And(r.a['length'] == 0, z3.Not(lex))
             if r.kind != 'tuple' or len(r.a['items']) != 1 or r.a['items'][0].kind != 'tuple' or len(r.a['items'][0].a['items']) != 2:
                 return z3.BoolVal(False)
             start, is_dir = r.a['items'][0].a['items']
-            return z3.And(pyvc.eq(start, c.p['curdir']), pyvc.truthy(is_dir))
+            return z3.And(pyvc.eq(start, c.p['curdir']), pyvc.truthy(is_dir), lex)
         return [('Glob._get_starting_paths.no_scan_iff_absolute_or_dot_or_dotdot', ('C05', 'C12'), literal),
-                ('Glob._get_starting_paths.unscanned_start_is_(curdir,is_dir=True)', ('C05', 'C12'), single_start)]
+                ('Glob._get_starting_paths.unscanned_start_is_(curdir,is_dir=True)_iff_it_exists', ('C05', 'C12'), single_start)]
 
     obligation_props = {'Glob._get_starting_paths.scans': ('C12', 'C05'), 'Glob._get_starting_paths.loop': ('C05',)}
 
